@@ -613,6 +613,7 @@ CW_MODELS = {
     "M5": [(1, 2, 1), (2, 3, 2)],
 }
 CW_TIMES = [0, 3, 6]
+CW_TIMES_SAME = [0, 3, 3]
 CW_DL = [2, 3, 5, 9]  # deadline = arrival time + offset
 CW_LOAD_RUNTIME = 1
 # worker configuration: (pools -> workers (GPUs, RAM, loaded models), run_load)
@@ -658,10 +659,11 @@ def build_cw_world(spec):
         pools.append(WorkerPool(name="pool%d" % pi, workers=ws))
     R = []
     nodes = {}
+    times = spec.get("times") or CW_TIMES
     for i, (m, k, off) in enumerate(spec["reqs"]):
-        d = CW_TIMES[k] + off
+        d = times[k] + off
         t = Task(name="Q%d" % i, task_graph="G", job=Job(name="Q%d_job" % i, profile=profiles[m]), profile=profiles[m], deadline=ET(d), timestamp=i)
-        R.append({"name": "Q%d" % i, "model": m, "arrival": k, "release": CW_TIMES[k], "deadline": d, "obj": t, "status": "virtual", "placed_at": None})
+        R.append({"name": "Q%d" % i, "model": m, "arrival": k, "release": times[k], "deadline": d, "obj": t, "status": "virtual", "placed_at": None})
         nodes[t] = []
     tg = TaskGraph(name="G", tasks=nodes)
     workload = Workload.from_task_graphs({"G": tg})
@@ -698,7 +700,7 @@ def cw_advance(W, t0, t1):
 def fmt_cw(W):
     spec = W["spec"]
     return "[clockwork goal=%s models A=%s B=%s workers %s=%s run_load=%s times=%s] requests: %s" % (
-        spec["goal"], CW_MODELS[spec["models"][0]], CW_MODELS[spec["models"][1]], spec["workers"], CW_WORKERS[spec["workers"]][0], W["run_load"], CW_TIMES,
+        spec["goal"], CW_MODELS[spec["models"][0]], CW_MODELS[spec["models"][1]], spec["workers"], CW_WORKERS[spec["workers"]][0], W["run_load"], spec.get("times") or CW_TIMES,
         " ".join("%s[model %s arrives %d deadline %d]" % (r["name"], r["model"], r["release"], r["deadline"]) for r in W["R"]))
 
 
@@ -719,7 +721,7 @@ def run_cw_spec(spec):
     ctx0 = fmt_cw(W)
     log = []
     prev = 0
-    for k, now in enumerate(CW_TIMES):
+    for k, now in enumerate(spec.get("times") or CW_TIMES):
         cw_advance(W, prev, now)
         prev = now
         for r in R:
@@ -866,7 +868,7 @@ def run_cw_spec(spec):
                 l["batches"].append((now + sd[1], sd[2]))
             dmin = min(R[ri]["deadline"] for ri, _ in members)
             if now + sd[1] > dmin:
-                viol.append(V("clockwork.batch_misses_deadline", ["C15"], "%s: batch %s with runtime %d finishes at %d, after the earliest deadline %d in the batch; contract: only if now + strategy runtime is not after the earliest deadline in the batch" % (ctx, names, sd[1], now + sd[1], dmin)))
+                viol.append(V("clockwork.batch_misses_deadline", ["C15", "C12"], "%s: batch %s with runtime %d finishes at %d, after the earliest deadline %d in the batch; contract: only if now + strategy runtime is not after the earliest deadline in the batch" % (ctx, names, sd[1], now + sd[1], dmin)))
             if s.batch_size >= 2 and len(members) >= 2:
                 info["big_batch"] += 1
         # ---- Model queue invariants after the call (C15)
@@ -1027,6 +1029,19 @@ def cw_specs(tier, seed, pid):
                     if goal == "least_slack" and len({m for m, _, _ in ms}) < 2:
                         continue  # the goal only matters when both models have requests
                     specs.append({"models": pair, "workers": wk, "reqs": list(ms), "goal": goal})
+    # the same scheduler invoked twice at ONE simulated time, with requests arriving in between (a release event at the
+    # time of a scheduler run pulls the next run to the same instant): invocations at 0, 3, 3 (seed C12-8: per-timestamp
+    # memo of the expiry sweep)
+    same_t = []
+    st_types = full if tier == "thorough" else [(m, k, off) for m in "AB" for k in (0, 1) for off in (3, 9)] + [(m, 2, off) for m in "AB" for off in (2, 5)]
+    for n in range(1, 4):
+        # (an earlier request creates the model's queues, so that the second invocation already visits them)
+        same_t.extend(ms for ms in itertools.combinations_with_replacement(st_types, n) if any(k == 2 for _, k, _ in ms))
+    for pair in CW_PAIRS[tier]:
+        for wk in sorted(CW_WORKERS):
+            for ms in same_t:
+                specs.append({"models": pair, "workers": wk, "reqs": list(ms), "goal": "clockwork", "times": CW_TIMES_SAME})
+    bound += " + %d multisets of 1-3 requests with invocations at %s (two invocations at one simulated time, an arrival in between)" % (len(same_t), CW_TIMES_SAME)
     for i, s in enumerate(specs):
         s["seed"] = (seed * 1000003 + 7919 * i + 13) & 0x7FFFFFFF
     return specs, bound
